@@ -35,12 +35,6 @@ Definition is_literal (t : term) : bool := match t with TLit _ _ => true | _ => 
 Definition known_C13_n3_literal (doc : list item) : bool :=
   existsb (fun i => existsb is_literal (item_terms i)) doc.
 
-(* C13-turtle-tagged-literal: clean_turtle_term only handles a literal that ENDS with its closing quote. *)
-Definition is_tagged_literal (t : term) : bool :=
-  match t with TLit _ SNone => false | TLit _ _ => true | _ => false end.
-Definition known_C13_ttl_tagged (doc : list item) : bool :=
-  existsb (fun i => existsb is_tagged_literal (item_terms i)) doc.
-
 (* C13-n3-hash-in-term: parse_n3 cuts every line at the first '#', also inside a term. *)
 Definition known_C13_n3_hash (doc : list item) : bool :=
   existsb (fun i => match i with IStmt _ _ _ _ _ => contains_c cHASH (render_item i) | _ => false end) doc.
